@@ -84,7 +84,6 @@ from cylc.flow.task_state import (
     TASK_STATUS_FAILED,
     TASK_STATUS_PREPARING,
     TASK_STATUS_RUNNING,
-    TASK_STATUS_SUBMIT_FAILED,
     TASK_STATUS_SUBMITTED,
     TASK_STATUS_SUCCEEDED,
     TASK_STATUS_WAITING,
@@ -648,20 +647,15 @@ class TaskPool:
                 # Re-prepare same submit.
                 itask.submit_num -= 1
 
-            # Running or finished task can have completed custom outputs.
-            if itask.state(
-                    TASK_STATUS_RUNNING,
-                    TASK_STATUS_FAILED,
-                    TASK_STATUS_SUBMIT_FAILED,
-                    TASK_STATUS_SUCCEEDED
-            ):
-                outputs = json.loads(outputs_str)
-                if isinstance(outputs, dict):
-                    # {trigger: message} (8.3+), else a list of messages
-                    outputs = outputs.values()
-                for message in outputs:
-                    itask.state.outputs.set_message_complete(message)
-                    self.data_store_mgr.delta_task_output(itask, message)
+            # Restore completed outputs (a task in any state can have some:
+            # submitted, those of an earlier try, or manually set ones).
+            outputs = json.loads(outputs_str)
+            if isinstance(outputs, dict):
+                # {trigger: message} (8.3+), else a list of messages
+                outputs = outputs.values()
+            for message in outputs:
+                itask.state.outputs.set_message_complete(message)
+                self.data_store_mgr.delta_task_output(itask, message)
 
             if platform_name and status != TASK_STATUS_WAITING:
                 itask.summary['platforms_used'][
